@@ -1,4 +1,4 @@
-import PewProofs.SyncSingle
+import PewProofs.SyncClock
 
 /-! # C08 — property theorems (statements only depend on `PewModel.Sync`) -/
 namespace Pew.Sync
@@ -455,6 +455,52 @@ theorem sync_render_single (a : Acq) (isnan : Nat → Bool) (p : Pattern) (hp : 
   refine ⟨rd, r, hr, hok, ?_, hspot, hpix, hb⟩
   rw [horig]; simp [truthOrigin, hps, minList]
 
+/-! ## the signal as the caller holds it: array shape, clock as stamps or as the time per sample -/
+
+/-- **Clock given as the acquisition time per sample.**  For a signal sampled every `dt ≥ 0` seconds
+(stamp `k` = first stamp + `k·dt`) held in an array of any shape with `data.size` = number of stamps,
+passing the float `dt` instead of the stamps gives the same result: `np.arange(data.size) * dt` and the
+stamps are shifted to the same times.  The shape enters only through its product. -/
+theorem clock_interval (rows : List Row) (sel : Option (List Int)) (shape : List Nat) (ts : List Rat) (dt delay : Rat)
+    (isnan : Nat → Bool) (squeeze : Bool) (hn : dataSize shape = ts.length) (hu : isUniform ts dt = true) :
+    syncClock rows sel shape (.interval dt) delay isnan squeeze = sync rows sel ts delay isnan squeeze := by
+  have hlen : ((Clock.interval dt).times ts.length).length = ts.length := by simp [Clock.times]
+  unfold syncClock sync
+  rw [hn, shiftTimes_interval ts dt delay hu, hlen]
+
+example : isUniform [69 / 4, 69 / 4 + 1 / 100, 69 / 4 + 2 / 100, 69 / 4 + 3 / 100] (1 / 100) = true := by decide +kernel
+example : dataSize [2, 2] = 4 ∧ dataSize [1, 4] = 4 ∧ dataSize [4] = 4 := by decide
+
+/-- **C08 with the clock as a float.**  A rendered acquisition in the domain of the ground truth whose
+signal was sampled at a constant interval (`a.interval rd.times = some dt`: equal dwell times, gaps of
+whole sample intervals), held in an array of any shape of that size and synchronised with
+`times = dt`, gives the ground-truth image, origin and spot size exactly as with the stamps. -/
+theorem sync_render_interval (a : Acq) (sel : Option (List Int)) (isnan : Nat → Bool) (rd : Rendered) (shape : List Nat)
+    (dt : Rat) (hyp : truthHyp a sel = true) (hr : render a sel = some rd)
+    (hn : dataSize shape = rd.times.length) (hdt : a.interval rd.times = some dt) :
+    ∃ r, syncClock rd.rows sel shape (.interval dt) rd.delay isnan false = .ok r ∧
+      r.origin = truthOrigin a sel ∧
+      (∃ p0, (selectedPatterns a sel).head? = some p0 ∧ r.spot = [(p0.sxu : Rat) / 10000, (p0.syu : Rat) / 10000]) ∧
+      r.pixels = truthImage a sel r.height r.width ∧
+      ∀ e ∈ truthCells a sel, 0 ≤ e.1 ∧ e.1 < (r.height : Int) ∧ 0 ≤ e.2.1 ∧ e.2.1 < (r.width : Int) := by
+  have hu : isUniform rd.times dt = true := by
+    match hts : rd.times with
+    | [] => rw [hts] at hdt; simp [Acq.interval] at hdt
+    | [t] =>
+      rw [hts] at hdt
+      simp only [Acq.interval, Option.map_eq_some_iff] at hdt
+      obtain ⟨p, _, rfl⟩ := hdt
+      have : (0 : Rat) ≤ (p.dwell : Rat) / 1000 := div_nonneg (by exact_mod_cast Nat.zero_le _) (by norm_num)
+      simp [isUniform, this]
+    | t0 :: t1 :: rest =>
+      rw [hts] at hdt
+      simp only [Acq.interval] at hdt
+      split at hdt
+      · rename_i h; simp only [Option.some.injEq] at hdt; rw [← hdt]; exact h
+      · simp at hdt
+  rw [clock_interval rd.rows sel shape rd.times dt rd.delay isnan false hn hu]
+  exact sync_render a sel isnan rd hyp hr
+
 /-! ### non-vacuity: concrete acquisitions satisfy the hypotheses -/
 
 /-- a serpentine raster of two lines of three pixels (left-to-right, then right-to-left one row down),
@@ -512,5 +558,25 @@ example : (exRes exLate (some [2])).pixels = [[none, some 0, some 1, none], [som
   decide +kernel
 example : (exRes exTwo (some [2])).pixels = [[some 6, some 7, some 8, none], [some 12, some 11, some 10, none]] := by
   decide +kernel
+
+/-- a uniformly sampled acquisition: `exSerp` with gaps of whole dwell times (20 ms lead-in with two
+samples, 10 ms gap with one, 10 ms tail with one); its clock can be given as 0.01 s per sample, the
+signal as 2 rows of 5 consecutive samples -/
+def exUniform : Acq :=
+  { exSerp with
+    patterns := exSerp.patterns.map (fun p =>
+      { p with lines := [{ gap := 20, gapSamples := 2, moves := 2 }, { gap := 10, gapSamples := 1, moves := 1 }] })
+    tailGap := 10 }
+
+example : truthHyp exUniform none = true := by decide +kernel
+example : (render exUniform none).map (fun rd => exUniform.interval rd.times) = some (some (1 / 100)) := by decide +kernel
+example : (render exUniform none).map (fun rd => rd.times.length) = some (dataSize [2, 5]) := by decide +kernel
+example : ((render exUniform none).map (fun rd =>
+      match syncClock rd.rows none [2, 5] (.interval (1 / 100)) rd.delay (fun _ => false) false with
+      | .ok r => r.pixels
+      | .error _ => [])) = some [[some 2, some 3, some 4, none], [some 8, some 7, some 6, none]] := by
+  decide +kernel
+/-- the acquisition `exSerp` itself (7 ms gap, 25 ms lead-in) is not sampled at a constant interval -/
+example : (render exSerp none).map (fun rd => exSerp.interval rd.times) = some none := by decide +kernel
 
 end Pew.Sync
